@@ -1567,30 +1567,30 @@ class MasterAxisStatus(SimpleAxisStatus):
                 received_command_answer = 4
 
         if mode_id == 3:
-            if parameter_1 < self.min_pos or parameter_1 > self.max_pos:
+            if not self.min_pos <= parameter_1 <= self.max_pos:
                 received_command_answer = 5
-            if abs(parameter_2) > self.max_velocity:
+            if not abs(parameter_2) <= self.max_velocity:
                 received_command_answer = 5
         elif mode_id == 4:
             desired_pos = (self.p_Ist / 1000000) + parameter_1
 
-            if desired_pos < self.min_pos or desired_pos > self.max_pos:
+            if not self.min_pos <= desired_pos <= self.max_pos:
                 received_command_answer = 5
             if abs(int(parameter_2)) > self.max_velocity:
                 received_command_answer = 5
         elif mode_id == 5:
-            if abs(parameter_1) > 1:
+            if not abs(parameter_1) <= 1:
                 received_command_answer = 5
-            if abs(parameter_2) > self.max_velocity:
+            if not abs(parameter_2) <= self.max_velocity:
                 received_command_answer = 5
         elif mode_id == 8:
-            if abs(parameter_2) > self.max_velocity:
+            if not abs(parameter_2) <= self.max_velocity:
                 received_command_answer = 5
         elif mode_id == 52:
             if self.stow_pos:
-                if int(parameter_1) not in range(len(self.stow_pos)):
+                if not 0 <= parameter_1 < len(self.stow_pos):
                     received_command_answer = 5
-                if abs(parameter_2) > 0.5 * self.max_velocity:
+                if not abs(parameter_2) <= 0.5 * self.max_velocity:
                     received_command_answer = 5
 
         return received_command_answer
